@@ -286,6 +286,8 @@ MUTANTS += [
          new="        if not hasattr(self, '_rr_set'):\n            self.set_richardson_rule(step_ratio, self.richardson_terms)\n            self._rr_set = True\n\n        return self.fd_rule.apply(results, steps, step_ratio), fxi\n\n    def set_richardson_rule"),
     dict(id='c01-undo-integer-doubling-fix', props=['C01'], file=FD,
          old="        return 12.0 * (f(x + i_h) + f(x - i_h) - 2.0 * f_x).real\n", new="        return 12.0 * (f(x + i_h) + f(x - i_h) - 2 * f_x).real\n"),
+    dict(id='c02-undo-negative-step-estimate-fix', props=['C02'], file=EXT,
+         old="            return (np.abs(new_sequence) * EPS + np.abs(steps)) * fact\n", new="            return (np.abs(new_sequence) * EPS + steps) * fact\n"),
     dict(id='c14-undo-epsalg-term-copy-fix', props=['C14'], file=EXT,
          old="        s_n = copy(s_n)  # a term held in an array may be updated in place by the caller\n", new=""),
     dict(id='c09-undo-shallow-copy-fix', props=['C09'], edits=[
